@@ -600,6 +600,20 @@ def run(rep: C.Report, tier: str) -> int:
     C.clean_gen(PROP)
     C.prove_and_audit(rep, PROP, THEOREMS)
 
+    try:      # Jacobi's formula and the resolvent identity for every n (Matrix/Jacobi.v)
+        _jac = ["C11_jacobi_poly_eval", "C11_jacobi_poly_degree", "C11_jacobi_coefficients", "C11_jacobi_first_order",
+                "C11_jacobi_formal_derivative", "C11_jacobi_unit", "C11_jacobi_unit_field", "C11_jacobi_log_det_form",
+                "C11_jacobi_formal_derivative_unit", "C11_jacobi_derivative", "C11_jacobi_derivative_unit",
+                "C11_jacobi_log_derivative", "C11_inverse_resolvent", "C11_inverse_resolvent_right",
+                "C11_inverse_first_order_exact", "C11_quad_first_order_exact"]
+        _a = C.coq_audit("C11_jacobi", _jac, "IT.Properties.C11Jacobi")
+        rep.obligation(True, len(_jac))
+        rep.coverage["jacobi_theorems_audit"] = _a
+    except C.ProofFailure as _e:
+        rep.obligation(False, 16)
+        rep.violation("C11/proof", f"proof obligation no longer checks: {_e.what}",
+                      {"theorem_or_correspondence": _e.what, "log": _e.log[-1000:]}, False)
+
     cases, outs = [], []
     for k in range(n_cases):
         case = gen_case(r, k, tier)
@@ -790,9 +804,12 @@ def run(rep: C.Report, tier: str) -> int:
         "SciPy/LAPACK cholesky and solve_triangular are exact in the theorems (L L^T = K_xx+S, L invertible, lower "
         "triangular for the determinant); the run checks this on the implementation's own factor to 1e-12*max|A|; "
         "inputs are conditioned (cond <= 1e4)",
-        "NOT proved (cited): Jacobi's formula and d(A^-1) = -A^-1 dA A^-1 for n > 2, i.e. that the trace form and "
-        "R&W (5.13) are the true derivatives; proved for n = 2 (C11_ml_gradient_is_derivative_n2) and algebraically to "
-        "first order (C11_inv_first_order); checked on the implementation by central differences [oracle]",
+        "Jacobi's formula (det(A + t dA) = det A + t tr(adj A dA) + t^2 rem(t); epsilon-delta derivative over any "
+        "ordered field) and the resolvent identity / exact first-order expansion of the inverse are proved for every n "
+        "(Properties/C11Jacobi.v, axiom-free). NOT proved: the chain rule through the real logarithm and through "
+        "theta -> K(theta) for n > 2, i.e. that the trace form is the derivative of the full score as a function of the "
+        "hyper-parameters (proved for n = 2: C11_ml_gradient_is_derivative_n2); checked on the implementation by "
+        "central differences [oracle]",
         "NOT proved: that L-BFGS-B satisfies the optimiser contract of C11_multistart_not_worse_than_centre (returned "
         "cost <= cost at its start, result inside the bounds); checked on recorded seeded runs [R test]; differential "
         "evolution is only checked for bounds",
